@@ -8,7 +8,8 @@ import codes_common as CC
 
 THEOREMS = ['C10_category_range', 'C10_category_of_family', 'C10_field_order', 'C10_pad5_iso', 'C10_text_key_shape',
             'C10_relay_distance', 'C10_sort_length', 'C10_fieldOrder_total_generic',
-            'pyMatch_eq_language', 'C10_category_by_language', 'C10_hurdles_total', 'C10_duration_total']
+            'pyMatch_eq_language', 'C10_category_by_language', 'C10_hurdles_total', 'C10_duration_total',
+            'C10_throws_total', 'C10_jumps_total', 'C10_track_metres_total', 'C10_sortKey_fails_only_through_getDistance']
 LEAN_MODULES = ['AthlibVerif.Oblig.C07.Tie', 'AthlibVerif.Oblig.C10.Groups', 'AthlibVerif.Props.C10']
 
 def call(f, *a):
